@@ -7,6 +7,9 @@ LEVEL = 'translation_validation'
 
 def run(rep):
     control.body_deductive(rep)
+    # distinct source variables stay distinct Python variables, every `_` gets its own (visitVARIABLE contract)
+    from . import lexical
+    lexical.visitor_deductive(rep, targets=('yp_prolog_visitor.YPPrologVisitor.visitVARIABLE',))
     q = rep.tier == 'quick'
     fw.standin(rep, 'difftest.py', ['run', 'F1', rep.seed, 1500 if q else 20000],
                'translation validation: whole programs (facts, rules, lists, recursion) vs reference SLD interpreter',
@@ -14,5 +17,8 @@ def run(rep):
     if not q:
         fw.standin(rep, 'difftest.py', ['run', 'F1', rep.seed, 0, '--exhaustive'], 'exhaustive head-pattern x query-pattern family',
                    'all head patterns x query patterns of the F1 enumerator', timeout=1800)
+    fw.standin(rep, 's_ctl.py', ['run', rep.seed, 500 if q else 8000],
+               'control constructs in clauses with plain distinct head variables (no enclosing loop), nested in conditions and under negation',
+               'systematic nested-condition trees + random F2 trees')
     rep.notes.append('deductive part: compile_body (conjunction nesting = left-to-right depth-first search); clause-level functions '
                      '(head unification order, aliasing, variable declarations) are covered by the bounded translation validation only')
